@@ -327,4 +327,22 @@ example : (sendPgn {} {} 1000 0 239 0x90 6 0x80 (List.range 20)).2 = true ∧
   refine ⟨by decide, by decide, ?_, by decide⟩
   simp [Sched]
 
+section SessionKeys
+open J1939.Bits
+
+/-- the J1939-21 session key in arithmetic form -/
+theorem hash21_arith (s d : Nat) : Tp21.buffer_hash s d = s % 256 * 256 + d % 256 := by
+  simp only [Tp21.buffer_hash, and_255, shl_8]
+  have := mul_or (s % 256) (d % 256) 8 (by simp only [Nat.reducePow]; omega); simpa using this
+
+/-- SESSIONS OF DIFFERENT PEER PAIRS NEVER SHARE A BUFFER: the key under which `send_pgn`, `notify` and the job thread store
+    and look up a transport session (regenerated from the source's `_buffer_hash`) is injective on all 256 × 256
+    (source, destination) pairs, so no transfer can be continued, overwritten or freed by frames of another pair -/
+theorem c01_session_key_injective (s d s' d' : Nat) (hs : s < 256) (hd : d < 256) (hs' : s' < 256) (hd' : d' < 256)
+    (h : Tp21.buffer_hash s d = Tp21.buffer_hash s' d') : s = s' ∧ d = d' := by
+  rw [hash21_arith, hash21_arith] at h
+  omega
+
+end SessionKeys
+
 end J1939.Props.C01
